@@ -254,7 +254,7 @@ def step (s : St) (line : String) : St × Array String :=
         if s.sessOpen[i]! then (applyOp w (.closeSession i)).2 else w) s.w
       let w := (List.range s.facOpen.size).foldl (fun w i =>
         if s.facOpen[i]! then (applyOp w (.closeFactory i)).2 else w) w
-      some (s!"res=ok | {secLine w}", { s with w := w })
+      some (s!"res=ok | {secLine w} | inuse=0", { s with w := w })
     | _ => none
   match r with
   | none => bad
